@@ -63,6 +63,10 @@ pub struct Inst {
     pub clock: Option<ClockSpec>,
     pub rounds: Option<u8>,
     pub ops: Vec<Op>,
+    /// block kinds only: the instance is the public CORE, driven by its owner through the one scratch block
+    /// that all cores of that type in the process share (`gens::SharedCoreGen`)
+    #[serde(default)]
+    pub shared_scratch: bool,
 }
 
 #[derive(Serialize, Deserialize, Clone, Debug, PartialEq, Default)]
@@ -111,6 +115,10 @@ pub struct Spec {
     /// the one before; 0 = the real clock as it is
     #[serde(default)]
     pub wall_step_ms: u64,
+    /// the calendar date the real clock (CLOCK_REALTIME) shows during the run: index into
+    /// `engine::wallclock::DATES` (0 = today); set for runs that call the real-clock constructor
+    #[serde(default)]
+    pub wall_date: u8,
     /// where the run's generators live: slot 0..3 = offset 0 / 4 / 8 / 12 (modulo 16) of a 16-aligned heap
     /// block; clones go to the next slot (see `gens::Placed`)
     #[serde(default)]
